@@ -452,6 +452,9 @@ func site() string {
 	}
 }
 
+// the watchdog: 20 s, except for the one family whose cost is known to be quadratic (see main)
+var watchdog = 20 * time.Second
+
 func guarded(f func() outcome) outcome {
 	ch := make(chan outcome, 1)
 	go func() {
@@ -465,7 +468,7 @@ func guarded(f func() outcome) outcome {
 	select {
 	case o := <-ch:
 		return o
-	case <-time.After(20 * time.Second):
+	case <-time.After(watchdog):
 		return outcome{class: "timeout"}
 	}
 }
@@ -581,7 +584,7 @@ func stageNode(name string, f func() sexp.Node) (n sexp.Node, crashed bool) {
 	}()
 	select {
 	case n = <-ch:
-	case <-time.After(20 * time.Second):
+	case <-time.After(watchdog):
 		n = sexp.T(name, sexp.Sym("crashed"))
 	}
 	return n, len(n.List) == 2 && n.List[1].Sym == "crashed"
@@ -746,7 +749,19 @@ func main() {
 		for _, k := range []string{"sel", "list", "obj", "type", "wide", "wideargs", "inline", "unclosed", "unclosedlist"} {
 			for _, n := range depths {
 				k, n := k, n
-				h.Case(func(*rng.R) sexp.Node { return emit("deep-"+k, "execute", deep(k, n), `{}`, "", 0, 0) })
+				if k == "wide" && n > 20000 {
+					// n fields of one response name: FieldsInSetCanMerge compares them pairwise
+					// (quadratic; the polynomial bound is property C12): 5000 take about 2 s,
+					// 20000 about 35 s, 100000 about a quarter of an hour per call
+					continue
+				}
+				h.Case(func(*rng.R) sexp.Node {
+					if k == "wide" && n > 5000 {
+						watchdog = 320 * time.Second // 20 s x (20000/5000)^2
+						defer func() { watchdog = 20 * time.Second }()
+					}
+					return emit("deep-"+k, "execute", deep(k, n), `{}`, "", 0, 0)
+				})
 			}
 		}
 		// 5. operation names
